@@ -318,6 +318,9 @@ def execute(plan, ctx):
             ok2, pmf2, site = _pmf(ctx, est, Xq, kw)
             if not ok2 or not np.array_equal(np.asarray(pmf2, dtype=float), np.asarray(pmf, dtype=float)):
                 ctx.fail("C10.pmf_unstable", "_pmf_predict changed between two calls on the same fitted model")
+            elif isinstance(pmf2, np.ndarray) and pmf2.flags.writeable and pmf2 is not pmf:
+                pmf2[...] = -1.0  # the caller scribbles on what it was handed: must not be the estimator's own memory
+                ctx.fault("returned_array_overwritten")
         elif kind == "mutate":
             # the caller reuses its query buffer: same object, rows reversed in place.  Every reported
             # probability must follow its row (no answer may be remembered by object identity).
